@@ -174,6 +174,8 @@ def _module_literal(prog, module, name):
 
 
 def check(prog, rep):
+    from . import pitfalls as _pit
+    rep.section(_pit.report, prog, rep, 'R08.P', ['src/optyx/solvers/lp_solver.py'], ('P1', 'P2', 'P3'))
     P = prog.cls("Problem")
     solve = P.methods.get("solve")
     if solve is None:
